@@ -94,9 +94,13 @@ impl Scenario for C11Tcp {
                     }
                 }
                 2..=5 => {
-                    let nt = r.range(1, 2) as usize;
+                    // mostly within the configured buffer; sometimes an overload (more than the buffer
+                    // holds, from up to three threads at once): no delivery is promised for those, but
+                    // the exporter must survive them and keep its framing
+                    let overload = buffer.is_some() && r.chance(150);
+                    let nt = if overload { r.range(2, 3) as usize } else { r.range(1, 2) as usize };
                     let mut per_thread = vec![];
-                    let mut left = cap;
+                    let mut left = if overload { buffer.unwrap_or(4).min(8) * 2 + 3 } else { cap };
                     for _ in 0..nt {
                         let n = r.range(1, left.max(1) as u64) as usize;
                         left = left.saturating_sub(n);
